@@ -163,8 +163,14 @@ def prove(res, qualnames, second_backend=False, crosscheck_limit=1500):
                 if f['kind'] == 'harness':
                     res.notes.append('%s: harness: %s' % (q, f['detail']))
                 else:
-                    # a contract that is proved but fires natively: the engine mis-models Python
-                    raise CheckerDefect('proved contract of %s fails natively on %s: %s' % (q, f['args'], f['detail']))
+                    # the contract is discharged statically yet the REAL function breaks it on a concrete input: an assumed
+                    # contract the proof leans on (see `assumptions`) does not hold on this tree, or the engine mis-models
+                    # Python.  Either way the failing input is real and is reported.
+                    res.violation('contract of %s fails natively (all obligations were discharged: an assumed callee contract is '
+                                  'violated or the encoding is wrong); failing input: %s -> %s' % (q, f['args'], f['detail']),
+                                  {'function': q, 'obligation': 'run-time form of the contract of %s' % q, 'kind': 'native-contract-failure',
+                                   'witness_args': f['args'], 'witness_detail': f['detail'], 'replay_kind': 'runtime-contract',
+                                   'ghosts': f.get('ghosts')})
             continue
         # failed obligations: report, with the refuter's witness if there is one
         witness = rt['failures'][0] if rt is not None and rt['failures'] and rt['failures'][0]['kind'] != 'harness' else None
@@ -210,8 +216,27 @@ def replay_file(path):
         print('  function:', p['function'])
         print('  args:', p['witness_args'])
         print('  recorded:', p['witness_detail'])
-        print('  (re-run through the run-time contract is done by the check itself; obligation %s)' % p['obligation'])
-        return 1
+        print('  obligation:', p['obligation'])
+        args = []
+        for a in p['witness_args']:
+            if isinstance(a, str) and 'DiffConfig object' in a:
+                from nbdime.diffing.config import DiffConfig
+                a = DiffConfig()
+            elif isinstance(a, dict) and '$object' in a:
+                cls = [c for c in reg.classes if c.endswith('.' + a['$object'])]
+                inst = runtime.resolve_real(cls[0])()
+                inst.__dict__.update(runtime.revive(a['fields']))
+                a = inst
+            else:
+                a = runtime.revive(a)
+            args.append(a)
+        try:
+            verdict, detail = rc.call(args, ghosts=None if not p.get('ghosts') or isinstance(p.get('ghosts'), str) else p['ghosts'])
+        except Exception as exc:
+            print('  replay not executable here (%s: %s); the recorded witness stands' % (type(exc).__name__, exc))
+            return 1
+        print('  now:', verdict, detail)
+        return 0 if verdict in ('ok', 'skip') else 1
     if kind == 'call':
         mod = importlib.import_module(p['module'])
         fn = getattr(mod, p['function'])
